@@ -27,6 +27,9 @@ CHECKS = {
  "C01": ("model_checking", "exhaustive scenario enumeration (all subscription tables of a bounded alphabet x full publish battery) on the real in-process broker under a cooperative scheduler, brute-force reference matcher as oracle",
   "Every subscription table of 1..2 subscriptions (plus an UNSUBSCRIBE history and, thorough, a third overlapping subscription) over 3 subscribers (v5, v3.1.1, and the v5 publisher itself) x 6 filters x QoS x option shapes, in both delivery modes, installed through real SUBSCRIBE packets on a fresh broker; then 72 publishes (v5 client, v3 client, Publisher API x topics x QoS x retain x properties), every delivery acknowledged. After each publish every socket is compared with the expected multiset of copies (count, QoS, RETAIN, subscription ids, properties), per-publisher order, and the publisher's ack id / reason code.",
   "Default schedule only in this check (0 scheduling deviations); concurrent publishers under all schedules are explored by the schedule DFS scenarios (C15/C01-E3 when registered). Trusted: vsched/memconn, refmqtt.", "DESIGN.md 8/C01"),
+ "C03": ("model_checking", "exhaustive scenario-tree enumeration on the real in-process broker with a wire monitor as oracle, plus explicit-state BFS on the real packet-id limiter",
+  "All sequences of publish QoS1/QoS2, subscriber ack steps (oldest/newest outstanding, PUBREC error), cut, reconnect and take-over (clean 0) up to depth 6 (quick) / 7 (thorough) for 5-7 subscriber variants (v5 Receive Maximum vs max_inflight, v3.1.1), each on a fresh broker; the monitor on the subscriber socket checks id uniqueness among outstanding PUBLISH/PUBREL, the window (never exceeded, never idle while messages wait), DUP flags, exact retransmission order after every reconnect, FIFO of new messages. The packet-id limiter is searched breadth-first (poll/release/batch release, cursor jumps to 65534/65535 standing for long histories) for limits 1..3.",
+  "Default schedule; races between acks, publishes and connection loss are explored by the schedule DFS scenarios of C15. Trusted: vsched/memconn, refmqtt.", "DESIGN.md 8/C03"),
 }
 NA_DEFAULT = "check not built yet in this session (planned design in DESIGN.md section 8)"
 
